@@ -62,6 +62,8 @@ type solverSpec struct {
 var solvers = []solverSpec{
 	{"z3-new", func(f string, t int) []string { return []string{"z3-new", fmt.Sprintf("-T:%d", t), f} }},
 	{"z3", func(f string, t int) []string { return []string{"z3", fmt.Sprintf("-T:%d", t), f} }},
+	// z3 5.1 without relevancy propagation: decides lambda-heavy (havoc) queries the default configuration does not
+	{"z3-new-r0", func(f string, t int) []string { return []string{"z3-new", fmt.Sprintf("-T:%d", t), "smt.relevancy=0", f} }},
 	{"cvc5", func(f string, t int) []string {
 		return []string{"cvc5", "--produce-models", fmt.Sprintf("--tlimit=%d", t*1000), f}
 	}},
@@ -70,8 +72,12 @@ var solvers = []solverSpec{
 // runSolver limits the solver by CPU time (ulimit -t), not wall time, so that a loaded machine does not turn
 // dischargeable obligations into timeouts; the wall-clock limit is only a backstop (8x).
 func runSolver(s solverSpec, file string, timeout int) (string, string) {
+	return runSolverCtx(context.Background(), s, file, timeout)
+}
+
+func runSolverCtx(parent context.Context, s solverSpec, file string, timeout int) (string, string) {
 	wall := timeout*8 + 5
-	ctx, cancel := context.WithTimeout(context.Background(), time.Duration(wall)*time.Second)
+	ctx, cancel := context.WithTimeout(parent, time.Duration(wall)*time.Second)
 	defer cancel()
 	a := s.args(file, wall)
 	sh := fmt.Sprintf("ulimit -t %d; exec \"$@\"", timeout+1)
@@ -361,20 +367,29 @@ func (g *gen) discharge(base string, opt dischargeOpts) []result {
 			if o.cover && tmo > 5 {
 				tmo = 5 // reachability checks are informational unless they come back unsat (vacuous)
 			}
-			st, out := runSolver(solvers[0], file, tmo)
+			// stage 1: the default solver with a short limit (most queries take well under a second); stage 2: a race of
+			// all configurations with the full limit, first definite answer wins and the others are killed
+			stage1 := tmo
+			if !o.cover && stage1 > 8 {
+				stage1 = 8
+			}
+			st, out := runSolver(solvers[0], file, stage1)
 			r.solver = solvers[0].name
 			if st != want && st != "sat" && st != "unsat" && !o.cover {
-				// fall back to the other solvers (cvc5 cannot parse z3 lambda arrays)
 				type ans struct{ st, out, name string }
-				ch := make(chan ans, 3)
+				ch := make(chan ans, len(solvers))
+				rctx, rcancel := context.WithCancel(context.Background())
 				n := 0
-				for _, s := range solvers[1:] {
+				for i, s := range solvers {
 					if s.name == "cvc5" && hasLambda {
-						continue
+						continue // cvc5 cannot parse z3 lambda arrays
+					}
+					if i == 0 && stage1 >= opt.timeout {
+						continue // already had the full limit
 					}
 					n++
 					go func(s solverSpec) {
-						st2, out2 := runSolver(s, file, opt.timeout)
+						st2, out2 := runSolverCtx(rctx, s, file, opt.timeout)
 						ch <- ans{st2, out2, s.name}
 					}(s)
 				}
@@ -385,6 +400,7 @@ func (g *gen) discharge(base string, opt dischargeOpts) []result {
 						break
 					}
 				}
+				rcancel()
 			}
 			r.secs = time.Since(t0).Seconds()
 			r.rawOut = out
@@ -406,8 +422,8 @@ func (g *gen) discharge(base string, opt dischargeOpts) []result {
 			}
 			if opt.cross && r.status == "unsat" && !o.cover {
 				// cross-check with a second solver: a sat answer is an engine error
-				for _, s := range solvers[1:] {
-					if s.name == "cvc5" && hasLambda {
+				for _, s := range solvers {
+					if (s.name == "cvc5" && hasLambda) || s.name == r.solver || s.name == "z3-new-r0" || (r.solver == "z3-new-r0" && s.name == "z3-new") {
 						continue
 					}
 					st2, _ := runSolver(s, file, opt.timeout)
